@@ -42,4 +42,10 @@ PROPS = {
         "level_note": "Full for a quiescent store; concurrent mutation during the visit rests on C15. Worker-pool termination is observed (20 s watchdog), the channel/WaitGroup plumbing is not modelled.",
         "assumptions": ["the store is quiescent during the visit", "Go channels / sync.WaitGroup behave as documented"],
     },
+    "C08": {
+        "runs": [run("snap", 2500, 40000)],
+        "level_text": "Theorems for ALL numbers of snapshots, goroutines, programs over Open/Close/GC and ALL schedules of the atomic steps (inductive invariant over a small-step interleaving semantics): no Open succeeds after the count reached zero, the count never leaves zero, each snapshot is retired at most once and exactly once at quiescence, the collector hands lists over in order, once, and a GC pass from any reachable quiescent state collects the whole consecutive retired run. The machine is tied to nitro.go by schedule replay: real goroutines run one at a time, parking at yield points between the atomic operations of Open/Close/collectDead/GC; the model replays the same thread choices and must reach the same yield label after every step, the same results and the same final open/retired sets and lastGCSn.",
+        "level_note": "Full at atomic-step granularity under sequentially consistent sync/atomic. The snapshot sets (two skiplists) are treated as atomic sets (C13 is the statement about that). NewIterator/Iterator.Close are Open/Close on the handle.",
+        "assumptions": ["sync/atomic operations are sequentially consistent", "skiplist insert/delete on the snapshot sets are atomic (C13)", "a goroutine closes only handles it holds"],
+    },
 }
